@@ -360,3 +360,25 @@ Theorem C09_source_detect_bad_line : forall (text first : list ascii),
   count_char TABC first < 3 ->
   detect_bedcov_columns text = DetectBadLine.
 Proof. exact Proofs.FnCoverageDetect.source_detect_bad_line. Qed.
+
+(* ---- source tie: interval_coverages_pileup's per-row depth / log2 code ("spans = table.end - table.start; ok_idx = spans > 0;
+   table = table.assign(depth=0.0, log2=NULL_LOG2_COVERAGE); table.loc[ok_idx, 'depth'] = basecount / spans; ok_idx =
+   table['depth'] > 0; table.loc[ok_idx, 'log2'] = np.log2(depth)"), translated from the Python source on every run
+   (Gen/FnCoveragePileup.v fn_pileup_row): the depth is the model's pileup_depth (exactly 0 on a zero-width or reversed bin,
+   basecount / span otherwise) and the log2 is the model's pileup_log2 of the code's own depth *)
+From CNV Require Gen.FnCoveragePileup Proofs.FnCoveragePileup.
+
+Theorem C09_source_pileup_depth : forall (log2o : Q -> Q) (bases lo hi : Z),
+  (Proofs.FnCoveragePileup.fn_pileup_depth log2o bases lo hi == pileup_depth bases lo hi)%Q /\
+  (lo < hi -> Proofs.FnCoveragePileup.fn_pileup_depth log2o bases lo hi = (inject_Z bases / inject_Z (hi - lo))%Q) /\
+  (hi <= lo -> Proofs.FnCoveragePileup.fn_pileup_depth log2o bases lo hi = 0%Q).
+Proof.
+  intros log2o bases lo hi.
+  exact (conj (Proofs.FnCoveragePileup.source_pileup_depth log2o bases lo hi)
+              (Proofs.FnCoveragePileup.source_pileup_depth_cases log2o bases lo hi)).
+Qed.
+
+Theorem C09_source_pileup_log2 : forall (log2o : Q -> Q) (bases lo hi : Z),
+  snd (Gen.FnCoveragePileup.fn_pileup_row log2o hi lo bases (-20 # 1)%Q)
+  = pileup_log2 log2o (Proofs.FnCoveragePileup.fn_pileup_depth log2o bases lo hi).
+Proof. exact Proofs.FnCoveragePileup.source_pileup_log2. Qed.
